@@ -32,6 +32,7 @@
 (*    txs, txe(..)   a link command starts / its command word went out     *)
 (*    hps, hpe(..)   a header packet starts / its last word went out       *)
 (*    dps, dpe       a data packet payload starts / ends                   *)
+(*    tx_abort       electrical idle began in the middle of a unit         *)
 (*    quiet(..)      nothing but idle and keep-alives for a long time      *)
 (*  every transmitted unit reports cs / sk = how many of its words were    *)
 (*  flagged "SKP may replace this word" / were replaced by a SKP set, and  *)
@@ -64,7 +65,7 @@ CONSTANTS NBuf,        \* header buffers / credits per direction (4)
           KaEarly,     \* a keep-alive may start this many cycles before K
           KaSlack,     \* ... and must have started K + KaSlack cycles after the last link command (idle stream)
           RecSlack,    \* link must have left U0 R + RecSlack cycles after the last reception
-          DownSlack,   \* a unit that starts / a header taken this many cycles after `down` was committed before it
+          DownSlack,   \* a header taken at most this many cycles after `down` was offered before it
           RstSlack,    \* `trained` falls within RstSlack cycles of a warm reset
           TsSlack,     \* ... and within TsSlack cycles of eight TS1 sets received in U0
           TCap         \* counters saturate here (model: small; traces: above every threshold)
@@ -133,6 +134,11 @@ LkInit == [
     rarmed  |-> FALSE,    \* rs is meaningful (no ambiguous reception since it restarted)
     ts1Req  |-> 0,        \* > 0: cycles since eight TS1 sets arrived in U0 (recovery requested by the partner)
     busy    |-> "none",   \* unit on the wire: none | lc | hp | dp
+    \* A link command / header packet that was committed when the link left U0 and lost the wire to the training
+    \* sets is not withdrawn: it may still come out while the link is down (at most one of each; the properties do
+    \* not speak about it).  TRUE = that one has not been seen yet.
+    staleLc |-> FALSE,
+    staleHp |-> FALSE,
     \* ghosts of the current U0 epoch
     gFirst  |-> "none",   \* first thing we transmitted: none | adv (LGOOD advertisement) | other
     gDownTx |-> 0,        \* units started / headers delivered while the link was down beyond DownSlack (never)
@@ -166,7 +172,7 @@ UpJudge(k) ==
     ELSE IF ~k.lfps THEN "up_without_lfps_exchange"
     ELSE IF ~k.pTs2 THEN "up_without_ts2_received"
     ELSE IF ~k.dTs2 THEN "up_without_ts2_sent"
-    ELSE IF k.ph # "LI" THEN "up_without_sending_idle"
+    ELSE IF k.ph \notin {"LI", "TS2"} THEN "up_without_sending_idle"     \* (TS2: a stale unit cut the idle run short)
     ELSE IF ~k.pIdling THEN "up_without_idle_received"
     ELSE IF k.pHot /\ ~k.dHot THEN "hot_reset_ignored"
     ELSE "ok"
@@ -218,7 +224,7 @@ JudgeK(k, r) ==
     [] r.e = "down"  -> DownJudge(k)
     [] r.e = "txph"  -> IF k.up /\ r.ph # "LI" THEN "training_while_link_ready" ELSE "ok"
     [] r.e = "txs"   -> IF k.busy # "none" \/ r_cur # "none" THEN "tx_overlap"
-                        ELSE IF ~k.up /\ k.sDown > DownSlack THEN "link_command_while_down"
+                        ELSE IF ~k.up /\ ~k.staleLc THEN "link_command_while_down"
                         ELSE NsJudge(r)
     [] r.e = "txe"   -> IF k.busy # "lc" \/ r_cur = "none" THEN "tx_without_start"
                         ELSE IF SkpJudge(r) # "ok" THEN SkpJudge(r)
@@ -229,7 +235,7 @@ JudgeK(k, r) ==
                         ELSE Rx!TxJudge(r.cmd, r.sub)
     [] r.e = "hps"   -> IF k.busy # "none" \/ t_cur.k # "none" THEN "tx_overlap"
                         ELSE IF NsJudge(r) # "ok" THEN NsJudge(r)
-                        ELSE IF ~k.up THEN (IF k.sDown > DownSlack THEN "header_while_down" ELSE "ok")
+                        ELSE IF ~k.up THEN (IF k.staleHp THEN "ok" ELSE "header_while_down")
                         ELSE IF r_advPending THEN "header_before_advertisement"
                         ELSE Tx!HpStartJudge
     [] r.e = "hpe"   -> IF k.busy # "hp" THEN "hp_without_start"
@@ -237,9 +243,10 @@ JudgeK(k, r) ==
                         ELSE IF ~r.ok THEN "hp_malformed"
                         ELSE Tx!HpEndJudge(r.s, r.dl, r.c)
     [] r.e = "dps"   -> IF k.busy # "none" THEN "tx_overlap"
-                        ELSE IF ~k.up /\ k.sDown > DownSlack THEN "data_while_down"
+                        ELSE IF ~k.up THEN "data_while_down"
                         ELSE NsJudge(r)
     [] r.e = "dpe"   -> IF k.busy # "dp" THEN "dp_without_start" ELSE SkpJudge(r)
+    [] r.e = "tx_abort" -> IF k.up THEN "training_while_link_ready" ELSE "ok"   \* electrical idle cut a unit short
     [] r.e = "ts_skp" -> "skp_replaces_non_idle_word"
     [] r.e = "tx_other" -> "tx_garbage_in_u0"
     [] r.e = "quiet" -> IF NsJudge(r) # "ok" THEN NsJudge(r)
@@ -302,11 +309,13 @@ ApplyK(k, r) ==
        [] r.e = "consume" -> Rx!Consume /\ lk' = k /\ UNCHANGED <<txv, todo>>
        [] r.e = "up"    ->
             /\ Rx!LinkUp /\ Tx!LinkUp
-            /\ lk' = [k EXCEPT !.up = TRUE, !.ks = 0, !.rs = 0, !.rarmed = TRUE, !.ts1Req = 0, !.gFirst = "none"]
+            /\ lk' = [k EXCEPT !.up = TRUE, !.ks = 0, !.rs = 0, !.rarmed = TRUE, !.ts1Req = 0, !.gFirst = "none",
+                               !.staleLc = FALSE, !.staleHp = FALSE]
             /\ UNCHANGED todo
        [] r.e = "down"  ->
             /\ Rx!LinkDown(RecentRst(k)) /\ Tx!LinkDown
             /\ lk' = [ClearTraining(k) EXCEPT !.up = FALSE, !.sDown = 0, !.ts1Req = 0, !.rarmed = FALSE,
+                                              !.staleLc = (k.busy # "lc"), !.staleHp = (k.busy # "hp"),
                                               !.det = @ /\ ~RecentRst(k), !.lfps = @ /\ ~RecentRst(k)]
             /\ todo' = <<>>
        [] r.e = "txph"  ->
@@ -322,8 +331,8 @@ ApplyK(k, r) ==
             /\ UNCHANGED <<txv, todo>>
        [] r.e = "txs"   ->
             /\ Rx!TxStart
-            /\ lk' = [k EXCEPT !.busy = "lc", !.ks = 0,
-                               !.gDownTx = IF ~k.up /\ k.sDown > DownSlack THEN @ + 1 ELSE @]
+            /\ lk' = [k EXCEPT !.busy = "lc", !.ks = 0, !.staleLc = FALSE,
+                               !.gDownTx = IF ~k.up /\ ~k.staleLc THEN @ + 1 ELSE @]
             /\ UNCHANGED <<txv, todo>>
        [] r.e = "txe"   ->
             /\ IF r_cur \in {"stale", "stale_up"} THEN Rx!TxEndStale /\ UNCHANGED txv
@@ -335,7 +344,8 @@ ApplyK(k, r) ==
             /\ UNCHANGED todo
        [] r.e = "hps"   ->
             /\ IF k.up THEN Tx!HpStart ELSE t_cur' = [k |-> "stale"] /\ UNCHANGED txvNoCur
-            /\ lk' = [k EXCEPT !.busy = "hp", !.gFirst = IF @ = "none" /\ k.up THEN "other" ELSE @]
+            /\ lk' = [k EXCEPT !.busy = "hp", !.staleHp = FALSE, !.gFirst = IF @ = "none" /\ k.up THEN "other" ELSE @,
+                               !.gDownTx = IF ~k.up /\ ~k.staleHp THEN @ + 1 ELSE @]
             /\ UNCHANGED <<rxv, todo>>
        [] r.e = "hpe"   ->
             /\ Tx!HpEnd(r.s, r.dl, r.c)
@@ -344,6 +354,11 @@ ApplyK(k, r) ==
        [] r.e = "dps"   -> lk' = [k EXCEPT !.busy = "dp"] /\ UNCHANGED <<rxv, txv, todo>>
        [] r.e = "dpe"   -> lk' = [k EXCEPT !.busy = "none", !.ks = Min(@, K), !.gSkp = @ + r.cs + r.sk]
                            /\ UNCHANGED <<rxv, txv, todo>>
+       [] r.e = "tx_abort" ->
+            /\ lk' = [k EXCEPT !.busy = "none"]
+            /\ IF r_cur # "none" THEN Rx!TxEndStale ELSE UNCHANGED rxv
+            /\ t_cur' = [k |-> "none"] /\ UNCHANGED txvNoCur
+            /\ UNCHANGED todo
        [] r.e = "quiet" -> lk' = k /\ UNCHANGED <<rxv, txv, todo>>
 
 Judge(r) == JudgeK(Adv(lk, r.dt), r)
